@@ -18,7 +18,9 @@ RULE = ("alloc: the harness binary installs divan::AllocProfiler as #[global_all
         "(monitor + timed-section decomposition) and the attribution equation are evaluated on the implementation's "
         "output. tuned-alloc: no sample_size (tuning rounds 1,2,4,...), the call script runs only for the first FL calls "
         "of a thread, so discarded tuning rounds allocate and kept samples may not: the reported figures of a kept sample must "
-        "be the tally of its own calls. alloc-resize-or-free-only: the generator script allocates and keeps 1-2 buffers (k), the "
+        "be the tally of its own calls. tuned-alloc-max-time: additionally a max_time (virtual ticks) that is used up in "
+        "round k = 1, 2, 3, R-1, R, R+1 of the R rounds tuning needs, threads 1-3: when the run ends while still tuning the "
+        "reported samples are those of the last tuning round and must carry their own figures. alloc-resize-or-free-only: the generator script allocates and keeps 1-2 buffers (k), the "
         "call script takes them (t) and only grows / shrinks / frees them, so the timed section contains no allocation: the "
         "figures must be exactly those operations. e2e-macro-wrappers: the real-macro binary hx-sample-e2e (one process per "
         "case, Divan::from_args().main(), TSC timer on the virtual clock) with a #[divan::bench] function for every wrapper arm "
@@ -102,6 +104,7 @@ def streams(tier, rng):
         resize_t.append(S.tuned_case(e, rng.choice(S.SHAPES), S.rand_cs(rng, e), rng.randrange(2), rng.choice([1, 2, 3, 5]),
                                      rng.choice([1, 2, 3]), rng.choice([20, 30, 45, 60]), 1000, G=g, F=f))
     e2e = S.e2e_cases(rng, tier)
+    tmax = [S.tuned_max_case(rng) for _ in range(800 if tier == "quick" else 15000)]
     tuned = [S.rand_tuned(rng, scripts=True) for _ in range(1500 if tier == "quick" else 25000)]
     return [
         Stream("corpus-alloc", "alloc", _corpus("alloc"), nontrivial=has_call),
@@ -124,6 +127,10 @@ def streams(tier, rng):
         # the returned value runs after the timed section, its deallocation is not attributed to the samples
         Stream("e2e-macro-wrappers", "e2e", e2e, nontrivial=has_call),
         Stream("e2e-macro-wrappers-release", "e2e", e2e[::3], nontrivial=has_call, release=True),
+        # max_time used up in round k: for k below the number of rounds tuning needs, the reported samples are
+        # tuning-round samples; their figures must still be the tally of their own calls
+        Stream("tuned-alloc-max-time", "tuned-alloc", tmax, nontrivial=has_figures,
+               model_input=lambda c, i: c + "\t" + i, hist=script_hist(tmax)),
         # optimised build (allocation elision, reordering around the timestamps would show here)
         Stream("alloc-scripted-release", "alloc", scripted if tier != "quick" else scripted[::2], nontrivial=has_figures, release=True),
         Stream("alloc-no-user-allocation-release", "alloc", zero if tier != "quick" else zero[::2], nontrivial=has_call, release=True),
@@ -134,7 +141,8 @@ def shrink(item, rerun):
     case, mode, rel = item["case"], item["mode"], item.get("release", False)
 
     def fails(c):
-        impl, model, sb = rerun(mode, c, crate=CRATE, release=rel, drv=DRV)
+        mi = (lambda case, impl_line: case + "\t" + impl_line) if mode.startswith("tuned") else None   # history-driven modes
+        impl, model, sb = rerun(mode, c, crate=CRATE, release=rel, model_input=mi, drv=DRV)
         # a candidate must fail the same way: same outcome word (a simplification that makes the harness itself
         # panic, e.g. a call script taking a buffer the generator no longer keeps, is not a smaller witness)
         same = impl.split(" ")[0] == str(item.get("impl") or "").split(" ")[0]
